@@ -25,3 +25,12 @@ FLAG_KEEPS = {
   "DisableBit.CONTACT": ["Data.ne", "Data.nf", "Data.nl"],
   "DisableBit.ACTUATION": ["Data.qfrc_spring", "Data.qfrc_damper"],
 }
+
+# (velocity-derivative kernel, the force kernel it differentiates) - confirmed by reading derivative.py against passive.py / forward.py
+DERIVATIVE_OF = [
+  ("derivative._qderiv_ellipsoid_fluid", "passive._fluid_force"),
+  ("derivative._qderiv_box_fluid", "passive._fluid_force"),
+  ("derivative._qderiv_tendon_damping", "passive._spring_damper_tendon_passive"),
+  ("derivative._qderiv_actuator_passive_vel", "forward._actuator_force"),
+]
+DERIVATIVE_FLAGS = ["ACTUATION", "SPRING", "DAMPER"]
